@@ -25,7 +25,7 @@ package cache
 //@ field MemoryCache.memoryCap guarded_by mu
 //@ field map_map_cache.CacheKey guarded_by mu+shard
 //@ field cacheJanitor.interval guarded_by confined:newCacheJanitor,cacheJanitor.start,cacheJanitor.start$1
-//@ field cacheJanitor.running guarded_by confined:newCacheJanitor,cacheJanitor.start,cacheJanitor.stop
+//@ field cacheJanitor.running guarded_by confined:newCacheJanitor,cacheJanitor.start,cacheJanitor.stop also:C19
 
 // ---------------------------------------------------------------- cache keys (C02)
 
@@ -426,12 +426,12 @@ package cache
 //@   requires c.byteSize.val != nil
 //@   ensures result == c.byteSize.val.v
 
-//@ props C15 C14 C16
+//@ props C15 C14 C16 C19
 //@ func cacheJanitor.start
 //@   nopanic
 
 // stop never blocks: it takes no lock and performs no channel send or receive.
-//@ props C14 C16
+//@ props C14 C16 C19
 //@ func cacheJanitor.stop
 //@   nopanic
 
@@ -456,7 +456,7 @@ package cache
 
 // The janitor goroutine: every tick runs a cleanup cycle; a changed interval
 // re-arms the ticker with the NEW interval.
-//@ props C13 C15 C14 C16
+//@ props C13 C15 C14 C16 C19
 //@ func cacheJanitor.start$1
 //@   nopanic
 //@   requires j != nil && j.interval > 0 && j.cfg != nil && aset(j.cfg.Cache.MaxCacheSize.value)
